@@ -181,8 +181,45 @@ def q_same(ex, args, kwargs):
     return ex.compare_op(ast.Is(), a, b)
 
 
+def q_forall_in(ex, args, kwargs):
+    from . import models as M
+
+    seq, f = args
+    items = ex.concrete_iter(seq)
+    if items is not None:
+        return ex.bool_and([ex.truth(ex.call(f, [x], {})) for x in items])
+    s = ex.as_symseq(seq)
+    if s is None:
+        raise Unsupported('forall_in over a value that is not a sequence')
+    kind = 'int' if s.k == 'bytes' else s.k[1]
+    e = z3.Const(ex.fresh_name('e'), M.sort_of(kind))
+    n0 = len(ex.pc)
+    ex.quant += 1
+    ex.spec_mode += 1
+    try:
+        body = ex.truth(ex.call(f, [M.elem_to_value(ex, e, kind)], {}))
+    finally:
+        ex.quant -= 1
+        ex.spec_mode -= 1
+    added = ex.pc[n0:]
+    del ex.pc[n0:]
+    b = zbool(body) if not isinstance(body, bool) else z3.BoolVal(body)
+    return mk_bool(z3.ForAll([e], z3.Implies(z3.And(z3.Contains(s.t, z3.Unit(e)), *added), b)))
+
+
+def q_rec_live(ex, args, kwargs):
+    from .values import ElemRef
+
+    (x,) = args
+    if not isinstance(x, ElemRef):
+        raise Unsupported('rec_live of a value that is not a record reference')
+    return mk_bool(z3.Select(ex.obj(x.mref).dom, zint(x.key)))
+
+
 SPEC_FORMS = {
     C.same: q_same,
+    C.rec_live: q_rec_live,
+    C.forall_in: q_forall_in,
     C.ufb: q_ufb,
     C.uf: q_uf,
     C.mhas: q_mhas,
